@@ -77,6 +77,18 @@ def cases(tier, rng):
                 ops += ["recv"] * len(ms)
                 out.append("z%d sock %s / %s" % (k, t, " / ".join(ops)))
                 k += 1
+    # REP: a request has been returned (a reply is owed); a further recv is started, polled and abandoned: the protocol
+    # state is as if that call had not been made - the reply still goes out, with the request's envelope
+    for pre, pt in (([], "REQ"), ([b"rid"], "DEALER"), ([b"r1", b"r" * 255], "DEALER")):
+        for polls in (0, 1, 2, 3):
+            for more in (False, True):
+                req = W.msg(pre + [b"", b"ask"])
+                ops = ["attach a " + pt, "feed a " + W.tok(req), "recv", "recvp %d" % polls]
+                if more:
+                    ops += ["feed a " + W.tok(W.msg(pre + [b"", b"ask2"])[:3]), "recvp %d" % polls]
+                ops += ["send 616e73", "wire a"]
+                out.append("w%d sock REP / %s" % (k, " / ".join(ops)))
+                k += 1
     for t in TYPES:
         for _ in range(120 if tier == "quick" else 2500):
             line = scen.scenario(rng, t, allow_eof=False)
@@ -102,6 +114,15 @@ def judge(line, obs, orc):
     kind = line.split()[0][0]
     if "r=lost-wakeup" in obs:
         return "a recv parked after an abandoned recv was never woken although the bytes of a complete message had arrived (socket unusable for a task awaiting it)"
+    if kind == "w":
+        feed = W.untok([op for op, tk in po if op[0] == "feed"][0][2])
+        env = feed[: len(feed) - len(W.msg([b"ask"]))]
+        snd = [tk for op, tk in po if op[0] == "send"][0]
+        wire = [tk for op, tk in po if op[0] == "wire"][-1]
+        want = "wire:a=" + (env + W.msg([b"ans"])).hex()
+        if snd != "s=ok" or wire != want:
+            return "REP: a recv abandoned while a reply was owed changed the protocol state: %s %s (expected s=ok %s)" % (snd, wire[:80], want[:80])
+        return None
     if kind in "xyz":
         ms = msgs_for(t)
         got = [tk for op, tk in po if op[0] in ("recv", "recvp", "recvw") and tk and ("=ok:" in tk)]
